@@ -4,6 +4,7 @@ Model: FlexModel/Sec/{Cert,Store,Verify,Sign}.lean (mirrors the repaired code, `
 FlexModel/Sec/Spec.lean; helper lemmas: FlexModel/Sec/Lemmas.lean.
 -/
 import FlexModel.Sec.Lemmas
+import Generated.Sec
 
 namespace Props.C09
 open FlexModel.Sec FlexModel.Sec.Store
@@ -35,6 +36,24 @@ theorem closed_reachable {U : Cert → Prop} (hinj : IdInj U) (ops : List Op) (S
 theorem closed_from_empty {U : Cert → Prop} (hinj : IdInj U) (ops : List Op) (S : Station) (h0 : S.store = {})
     (hops : ∀ op ∈ ops, ∀ c ∈ op.certs, U c) : Closed (S.run Cfg.fixed ops).store :=
   (closed_reachable hinj ops S (h0 ▸ closed_init U) hops).closed
+
+/-- roots are exactly what the configuration API accepted: over any history, every certificate in the root dictionary
+    was there initially or was offered through `add_root_certificate` and verified (nothing a message or a chain offer
+    carries can become a root) -/
+theorem roots_only_configured (ops : List Op) (S : Station) (c : Cert)
+    (h : c ∈ certsOf (S.run Cfg.fixed ops).store.roots) :
+    c ∈ certsOf S.store.roots ∨ ∃ s, Op.addRoot s ∈ ops ∧ s.c = c ∧ s.c.verify Cfg.fixed s.att = true := by
+  induction ops generalizing S with
+  | nil => exact Or.inl h
+  | cons op rest ih =>
+    rcases ih (S.step Cfg.fixed op) h with h1 | ⟨s, hs, hc, hv⟩
+    · rcases roots_only_by_addRoot Cfg.fixed S op with heq | ⟨s, hop, hv, heq⟩
+      · rw [heq] at h1; exact Or.inl h1
+      · rw [heq] at h1
+        rcases mem_certsOf_put h1 with h2 | h2
+        · exact Or.inl h2
+        · exact Or.inr ⟨s, by simp [hop], h2.symm, hv⟩
+    · exact Or.inr ⟨s, by simp [hs], hc, hv⟩
 
 /-- a stored authority or ticket has its issuer in the store: named by digest, signature by that issuer's key,
     permissions within the issuer's issuing permissions (or it is itself a configured root) -/
@@ -135,6 +154,13 @@ theorem accept_time_old_witness :
     accepts Cfg.old wStation (wMsg 36 5) = true ∧ accepts Cfg.old wStation (wMsg 36 2000000000) = true ∧
     accepts Cfg.fixed wStation (wMsg 36 5) = false ∧ accepts Cfg.fixed wStation (wMsg 36 2000000000) = false := by
   decide
+
+/-- regenerated fact: the Duration → microseconds table of the validity guard is the IEEE 1609.2 one (a year =
+    31 556 952 s, sixtyHours = 216 000 s); the harness feeds `durUs` computed with its own copy of this table -/
+theorem duration_table_agrees :
+    Generated.Sec.durationUs =
+      [("microseconds", 1), ("milliseconds", 1000), ("seconds", 1000000), ("minutes", 60 * 1000000),
+       ("hours", 3600 * 1000000), ("sixtyHours", 216000 * 1000000), ("years", 31556952 * 1000000)] := by decide
 
 /-! ## Issuing API -/
 
